@@ -397,6 +397,14 @@ def run(chk):
     for v in chk.violations[before:]:
         v["key"] += "@K4"
         v["what"] = "[dimension checking compiled out] " + v["what"]
+    # "a wrongly dimensioned argument is rejected" also in the release profile with dim_check_release (K7)
+    p7 = load_config("K7")
+    chk.configs.append("K7")
+    before = len(chk.violations)
+    check_setters(chk, p7, S.Sim(p7), "@K7")
+    for v in chk.violations[before:]:
+        v["key"] += "@K7"
+        v["what"] = "[release profile with dim_check_release] " + v["what"]
     check_command_from_state(chk, prog, sim)
     check_accessors(chk, prog, sim)
     check_arith(chk, prog, sim)
